@@ -6,7 +6,7 @@
    order, including those made while deferred values are forced. *)
 From Coq Require Import List String Bool NArith.
 From GQL Require Import Exec.Syntax Exec.Coerce Exec.Exec Exec.Request Run.ExecRun
-     Proofs.ExecInv Proofs.ExecSerial.
+     Proofs.ExecInv Proofs.ExecSerial Proofs.ExecObserve.
 Import ListNotations.
 Open Scope string_scope.
 Open Scope list_scope.
@@ -73,3 +73,50 @@ Example C13_nonvacuous :
   | _ => False
   end.
 Proof. vm_compute. split; reflexivity. Qed.
+
+(* "each field observes all side effects of its predecessors and none of its successors": at the
+   moment any invocation c belonging to top-level field j runs (the log splits as pre ++ c :: post),
+   every invocation that already ran belongs to a field at or before j and every invocation still to
+   come belongs to a field at or after j. *)
+Theorem C13_observes : forall fuel S D opn inputs root or tor data s pre c post j,
+  is_mutation D opn = true ->
+  request fuel S D opn inputs root or tor = RDone data s ->
+  st_calls s = pre ++ c :: post ->
+  top_index (root_keys fuel S D opn inputs) (c_path c) = Some j ->
+  Forall (fun q => exists i, top_index (root_keys fuel S D opn inputs) (c_path q) = Some i /\ (i <= j)%N) pre /\
+  Forall (fun q => exists i, top_index (root_keys fuel S D opn inputs) (c_path q) = Some i /\ (j <= i)%N) post.
+Proof. exact mutation_observes. Qed.
+Print Assumptions C13_observes.
+
+(* every invocation made for a mutation belongs to one of its top-level fields *)
+Theorem C13_calls_indexed : forall fuel S D opn inputs root or tor data s,
+  is_mutation D opn = true ->
+  request fuel S D opn inputs root or tor = RDone data s ->
+  Forall (fun c => exists i, top_index (root_keys fuel S D opn inputs) (c_path c) = Some i) (st_calls s).
+Proof. exact mutation_calls_indexed. Qed.
+Print Assumptions C13_calls_indexed.
+
+(* the invocations observed by c (those before it) contain all the work of every earlier top-level
+   field and nothing of a later one *)
+Theorem C13_observed_effects : forall fuel S D opn inputs root or tor data s pre c post j,
+  is_mutation D opn = true ->
+  request fuel S D opn inputs root or tor = RDone data s ->
+  st_calls s = pre ++ c :: post ->
+  top_index (root_keys fuel S D opn inputs) (c_path c) = Some j ->
+  let keys := root_keys fuel S D opn inputs in
+  filter (of_field keys (fun i => (i <? j)%N)) (st_calls s) = filter (of_field keys (fun i => (i <? j)%N)) pre /\
+  filter (of_field keys (fun i => (j <? i)%N)) pre = [].
+Proof. exact mutation_observed_effects. Qed.
+Print Assumptions C13_observed_effects.
+
+(* non-vacuity of C13_observes on the example above: the invocation of b (field 1) observes both
+   invocations of field 0, including the nested one made when the deferred value of a was forced *)
+Example C13_observes_nonvacuous :
+  match request 20 S13 D13 None [] (RObj 0%N "root") or13 (fun _ => None) with
+  | RDone _ s =>
+    exists c0 c1 c2, st_calls s = [c0; c1] ++ c2 :: [] /\
+      top_index (root_keys 20 S13 D13 None []) (c_path c2) = Some 1%N /\
+      is_mutation D13 None = true
+  | _ => False
+  end.
+Proof. vm_compute. do 3 eexists. repeat split. Qed.
